@@ -18,7 +18,7 @@ if ! cargo build --release --quiet 2> "$ROOT/harness/target/build.log"; then
     exit 2
   fi
 fi
-if [ "$ID" = "C20" ]; then
+if [ "$ID" = "C20" ] || [ "$ID" = "C04" ]; then
   if ! CARGO_PROFILE_RELEASE_OVERFLOW_CHECKS=true CARGO_PROFILE_RELEASE_DEBUG_ASSERTIONS=true cargo build --release --quiet -p rspirv-dis --manifest-path /repo/Cargo.toml --target-dir "$ROOT/target/dis" 2> "$ROOT/target/dis-build.log"; then
     cat "$ROOT/target/dis-build.log" >&2
     echo "rspirv-dis build failed (infrastructure, not a violation)" >&2
